@@ -3,6 +3,7 @@ package vc
 import (
 	"fmt"
 	"go/token"
+	"sort"
 	"strings"
 )
 
@@ -20,6 +21,7 @@ type Enc struct {
 	usesRunEnd bool
 	usesCnt    bool
 	usesDv     bool
+	ghosts     map[string]int
 	cntSeen    map[string]bool
 }
 
@@ -104,6 +106,16 @@ func (e *Enc) Oblige(fn, kind, what string, goal Term, pos token.Position) *Obli
 func (o *Obligation) Query(prelude string) string {
 	var b strings.Builder
 	b.WriteString(prelude)
+	if len(o.enc.ghosts) > 0 {
+		var names []string
+		for n := range o.enc.ghosts {
+			names = append(names, n)
+		}
+		sort.Strings(names)
+		for _, n := range names {
+			b.WriteString("(declare-fun g!" + n + " (" + strings.TrimSpace(strings.Repeat("Int ", o.enc.ghosts[n])) + ") Int)\n")
+		}
+	}
 	if o.enc.usesRunEnd {
 		b.WriteString(RunEndAxioms)
 	}
